@@ -224,6 +224,7 @@ end Life
 namespace Buf
 
 inductive Prim where
+  -- the list-zipper primitives of an output pass
   | clearOutput
   | next
   | nexts (n : Nat)
@@ -234,7 +235,27 @@ inductive Prim where
   | outputInfo (x : Info)
   | moveTo (i : Nat)
   | sync
+  -- substitution with cluster merging
+  | replaceGlyphs (numIn : Nat) (glyphs : List Nat)
+  | deleteGlyph
+  -- clusters, glyph flags, masks, reversal: contents only
+  | mergeClusters (s e : Nat)
+  | mergeOutClusters (s e : Nat)
+  | unsafeToBreak (s : Nat) (e : Option Nat)
+  | unsafeToBreakFromOut (s : Nat) (e : Option Nat)
+  | unsafeToConcat (s : Nat) (e : Option Nat)
+  | unsafeToConcatFromOut (s : Nat) (e : Option Nat)
+  | safeToInsertTatweel (s : Nat) (e : Option Nat)
+  | setMasks (value mask cstart cend : Nat)
+  | resetMasks (mask : Nat)
+  | reverseRange (s e : Nat)
+  | reverse
   deriving Repr
+
+/-- the ten primitives that move glyphs across the cursor (the ones `Lemmas/BufZipper.lean` has specifications for) -/
+def Prim.zipper : Prim → Bool
+  | .clearOutput | .next | .nexts _ | .skip | .copy | .replace _ | .outputGlyph _ | .outputInfo _ | .moveTo _ | .sync => true
+  | _ => false
 
 /-- one primitive (boolean results dropped: failure is recorded in `successful`) -/
 def Prim.run (b : Buf) : Prim → M Buf
@@ -248,6 +269,19 @@ def Prim.run (b : Buf) : Prim → M Buf
   | .outputInfo x => b.outputInfo x
   | .moveTo i => do let (b, _) ← b.moveTo i; pure b
   | .sync => do let (b, _) ← b.sync; pure b
+  | .replaceGlyphs numIn gs => b.replaceGlyphs numIn gs
+  | .deleteGlyph => b.deleteGlyph
+  | .mergeClusters s e => b.mergeClusters s e
+  | .mergeOutClusters s e => b.mergeOutClusters s e
+  | .unsafeToBreak s e => b.unsafeToBreak s e
+  | .unsafeToBreakFromOut s e => b.unsafeToBreakFromOut s e
+  | .unsafeToConcat s e => b.unsafeToConcat s e
+  | .unsafeToConcatFromOut s e => b.unsafeToConcatFromOut s e
+  | .safeToInsertTatweel s e => b.safeToInsertTatweel s e
+  | .setMasks v m s e => b.setMasks v m s e
+  | .resetMasks m => b.resetMasks m
+  | .reverseRange s e => b.reverseRange s e
+  | .reverse => b.reverse
 
 /-- the callers' contract of each primitive (there is a current glyph / the target exists / an output pass
     is open); nothing about budgets or buffer sizes -/
@@ -262,6 +296,11 @@ def Prim.pre (b : Buf) : Prim → Prop
   | .outputInfo _ => b.haveOutput = true
   | .moveTo i => if b.haveOutput then i ≤ b.outLen + (b.len - b.idx) else i ≤ b.len
   | .sync => b.haveOutput = true
+  | .deleteGlyph => b.idx < b.len
+  | _ => True
+
+instance (b : Buf) (p : Prim) : Decidable (Prim.pre b p) := by
+  cases p <;> simp only [Prim.pre] <;> infer_instance
 
 /-- `b —ps→ b'`: the primitives `ps` run one after the other without panic, each called within its contract -/
 inductive Steps : Buf → List Prim → Buf → Prop
